@@ -421,6 +421,75 @@ fn nums_after(s: &str, key: &str) -> Vec<usize> {
     out
 }
 
+/// feed `raws` to a fresh real `Receiver` writing through one of the crate's own writer builders; returns oracle failures
+fn real_writer_scenario(kind: &str, want: &[u8], raws: &[Vec<u8>]) -> Vec<(String, String)> {
+    use flute::receiver::writer::{ObjectWriterBufferBuilder, ObjectWriterFSBuilder};
+    let mut fails = Vec::new();
+    let cfg = Config { enable_fdt_expiration_check: false, ..Default::default() };
+    let feed = |b: Rc<dyn ObjectWriterBuilder>| -> Result<(), String> {
+        let raws: Vec<Vec<u8>> = raws.to_vec();
+        guarded(std::panic::AssertUnwindSafe(move || {
+            let mut r = Receiver::new(&endpoint(), TSI, b, Some(cfg));
+            for raw in &raws {
+                let _ = r.push_data(raw, now());
+            }
+            drop(r);
+        }))
+    };
+    match kind {
+        "bufdefault" | "bufnew" => {
+            let b = Rc::new(if kind == "bufdefault" { ObjectWriterBufferBuilder::default() } else { ObjectWriterBufferBuilder::new(true) });
+            if let Err(loc) = feed(b.clone()) {
+                fails.push(("C04:panic".to_string(), format!("Receiver with ObjectWriterBufferBuilder panics at {}", loc)));
+            }
+            for o in b.objects.borrow().iter() {
+                let o = o.borrow();
+                if o.complete && o.data != want {
+                    fails.push((
+                        "C03:complete-wrong-bytes".to_string(),
+                        format!("ObjectWriterBufferBuilder ({}): object held as COMPLETE with {} bytes that are not the sender's object ({} bytes; Content-MD5 announced)", kind, o.data.len(), want.len()),
+                    ));
+                }
+            }
+        }
+        "fs" => {
+            static N: std::sync::atomic::AtomicU64 = std::sync::atomic::AtomicU64::new(0);
+            let dir = std::env::temp_dir().join(format!("orecv-fs-{}-{}", std::process::id(), N.fetch_add(1, std::sync::atomic::Ordering::Relaxed)));
+            let _ = std::fs::create_dir_all(&dir);
+            match ObjectWriterFSBuilder::new(&dir, true) {
+                Ok(b) => {
+                    if let Err(loc) = feed(Rc::new(b)) {
+                        fails.push(("C04:panic".to_string(), format!("Receiver with ObjectWriterFSBuilder panics at {}", loc)));
+                    }
+                    // `error()` removes the file: a file that is still there after the Receiver was dropped has been delivered
+                    let mut stack = vec![dir.clone()];
+                    while let Some(d) = stack.pop() {
+                        if let Ok(rd) = std::fs::read_dir(&d) {
+                            for e in rd.flatten() {
+                                let p = e.path();
+                                if p.is_dir() {
+                                    stack.push(p);
+                                } else if let Ok(data) = std::fs::read(&p) {
+                                    if data != want {
+                                        fails.push((
+                                            "C03:complete-wrong-bytes".to_string(),
+                                            format!("ObjectWriterFSBuilder (MD5 check requested): file left in the destination with {} bytes that are not the sender's object ({} bytes; Content-MD5 announced)", data.len(), want.len()),
+                                        ));
+                                    }
+                                }
+                            }
+                        }
+                    }
+                }
+                Err(_) => fails.push(("HARNESS:fs-builder".to_string(), "ObjectWriterFSBuilder::new failed on a fresh temporary directory".to_string())),
+            }
+            let _ = std::fs::remove_dir_all(&dir);
+        }
+        _ => {}
+    }
+    fails
+}
+
 impl Inner {
     fn new() -> Inner {
         let mon: Shared = Rc::new(RefCell::new(Mon { def_md5: true, ..Default::default() }));
@@ -566,6 +635,20 @@ impl Inner {
             }
             "ct" | "zmap" if t.len() == 4 => "ok".to_string(),
             "zmap" if t.len() == 5 && t[4] == "bad" => "ok".to_string(),
+            "realwriter" if t.len() == 5 => {
+                // ORACLE-ONLY op (the model answers `ok`): the datagrams are fed to a FRESH real Receiver whose writer is one of
+                // the crate's own builders - `ObjectWriterBufferBuilder::default()`, `::new(true)`, `ObjectWriterFSBuilder::new(dir,
+                // true)` - instead of the monitoring writer: what they hold as COMPLETE must be the expected object (seeded changes
+                // C03-9 / C03-10: the MD5 decision is taken from the builder's / writer's `enable_md5_check`)
+                match (unhex(t[3]), t[4].split('.').map(unhex).collect::<Option<Vec<Vec<u8>>>>()) {
+                    (Some(want), Some(raws)) => {
+                        let fails = real_writer_scenario(t[2], &want, &raws);
+                        self.mon.borrow_mut().fails.extend(fails);
+                        "ok".to_string()
+                    }
+                    _ => "bad-op".to_string(),
+                }
+            }
             "expect" if t.len() == 5 && t[3] == "n" => match t[2].parse::<u128>() {
                 // `expect <toi> n <class>`: this TOI must never be told `complete`
                 Ok(toi) if t[4].starts_with("C0") => {
